@@ -850,9 +850,9 @@ def wl_inverse(run, rng, idx):
 
 
 WORKLOADS = [
-    Workload("exact-integer", wl_exact, quick=72, thorough=2880),
-    Workload("float-sampling", wl_float, quick=96, thorough=3840),
-    Workload("special-matrices", wl_hostile, quick=36, thorough=576),
-    Workload("hom-wrappers", wl_wrappers, quick=20, thorough=400),
-    Workload("documented-inverse", wl_inverse, quick=120, thorough=4800),
+    Workload("exact-integer", wl_exact, quick=72, thorough=8640),
+    Workload("float-sampling", wl_float, quick=98, thorough=11760),
+    Workload("special-matrices", wl_hostile, quick=36, thorough=1728),
+    Workload("hom-wrappers", wl_wrappers, quick=20, thorough=1200),
+    Workload("documented-inverse", wl_inverse, quick=120, thorough=14400),
 ]
